@@ -109,7 +109,11 @@ def build(seed):
         r = "name" + (("[" + ",".join(ex) + "]") if ex else "") + ",".join(cl) + "; python_version >= '3.8' and (os_name == 'posix' or extra == 'A_b')"
         add("req.str", lambda r=r: str(requirements.Requirement(r)))
         add("req.parts", lambda r=r: (lambda q: [q.name, q.extras, str(q.specifier), q.url, str(q.marker)])(requirements.Requirement(r)))
-    envs = [{"os_name": "posix", "python_version": "3.9", "extra": "a-b"}, {"sys_platform": "win32", "extra": None}]
+    full = {"implementation_name": "cpython", "implementation_version": "3.13.0", "os_name": "posix", "platform_machine": "x86_64",
+            "platform_release": "6.1", "platform_system": "Linux", "platform_version": "#1", "python_full_version": "3.13.0+",
+            "platform_python_implementation": "CPython", "python_version": "3.13", "sys_platform": "linux"}
+    envs = [{"os_name": "posix", "python_version": "3.9", "extra": "a-b"}, {"sys_platform": "win32", "extra": None},
+            dict(full), dict(full, extra=None), dict(full, python_full_version="3.12.1", extra="A_b")]
     for m in ["os_name == 'posix' and python_version >= '3.8'", "extra == 'A_B' or sys_platform == 'win32'",
               "python_full_version < '3.10.0' or (os_name != 'nt' and 'linux' in sys_platform)"]:
         for e in envs:
